@@ -691,11 +691,14 @@ func gen(t *rapid.T) Case {
 			c.Ops = append(c.Ops, Op{Kind: "dup", Idx: rapid.IntRange(0, 7).Draw(t, "dup-of")})
 		case 6:
 			c.Ops = append(c.Ops, Op{Kind: "read"})
-		case 7:
+		case 7, 8:
 			c.Ops = append(c.Ops, Op{Kind: "getmodule", Idx: rapid.IntRange(0, 7).Draw(t, "getmodule-of")})
 		default:
 			c.Ops = append(c.Ops, Op{Kind: "process"})
 		}
+	}
+	if rapid.Bool().Draw(t, "getmodule-at-the-end") {
+		c.Ops = append(c.Ops, Op{Kind: "getmodule", Idx: rapid.IntRange(0, 7).Draw(t, "last-getmodule-of")})
 	}
 	c.Ops = append(c.Ops, Op{Kind: "process"})
 	return c
